@@ -509,6 +509,9 @@ func TestVerifC04(t *testing.T) {
 		if err != nil {
 			t.Fatalf("HARNESS-ERROR load replay: %v", err)
 		}
+		if rp.Kind == "fetch" {
+			return // a replay of the handler part (cmd/broker TestVerifC04Fetch)
+		}
 		o := c04Run(t, &rp)
 		rep.Eval(o.reads)
 		rep.Outcome(o.sig, true)
